@@ -103,7 +103,8 @@ class PropsMixin:
     def fullpath(self):
         """ Request path including :attr:`script_name` (if present). """
         appname = self._env_get(self.config.app_name_header, '/')
-        return urljoin(self.script_name, self.path[len(appname):].lstrip('/'))
+        # `./` keeps urljoin from reading the request path as a URL of its own (`/http://[`, `/a:b`)
+        return urljoin(self.script_name, './' + self.path[len(appname):].lstrip('/'))
 
     @property
     def query_string(self):
